@@ -91,6 +91,45 @@ theorem format_table :
     allFrom (fun i => modelFormatOk (i / 4) (i % 4) == Generated.formatOkTable.getD i false) 0 36 = true := by
   decide +kernel
 
+/-! ### which typed lookups and assignments succeed (the success pattern of C07's conversion table)
+
+For every stored type 0..8, every requested kind and both auto-convert settings, on the
+canonical values 1 / 1.0 / "x" / true: whether the typed lookup succeeds, and for the typed
+assignment the success flag together with the setting's type afterwards.  (The VALUES of the
+conversions are C07's theorems and the boundary grid; this table makes the success pattern a
+complete tie.) -/
+
+def kindOf : Nat → Kind
+  | 0 => .int | 1 => .int64 | 2 => .float | 3 => .bool | _ => .string
+
+/-- `config_init`, auto-convert `a`, a member `x` of type `t` holding the canonical value -/
+def cellState (t : Nat) (a : Bool) : State :=
+  run ([.setOption OPT_AUTOCONVERT a, .add [] (some [120]) (t : Nat)] ++
+       (if t == T_INT then [Op.setInt [0] 1] else if t == T_INT64 then [Op.setInt64 [0] 1]
+        else if t == T_FLOAT then [Op.setFloat [0] 0x3FF0000000000000] else if t == T_STRING then [Op.setString [0] (some [120])]
+        else if t == T_BOOL then [Op.setBool [0] 1] else []))
+
+def modelGetOk (t k : Nat) (a : Bool) : Bool :=
+  match (step (cellState t a) (.lookupVal (kindOf k) [] (some [120]))).2.res with
+  | .optVal (some _) => true
+  | _ => false
+
+def modelSetResult (t k : Nat) (a : Bool) : Nat :=
+  let s0 := run [.setOption OPT_AUTOCONVERT a, .add [] (some [120]) (t : Nat)]
+  let op : Op := match k with
+    | 0 => .setInt [0] 1 | 1 => .setInt64 [0] 1 | 2 => .setFloat [0] 0x3FF0000000000000
+    | 3 => .setBool [0] 1 | _ => .setString [0] (some [120])
+  let (s1, o) := step s0 op
+  (match o.res with | .flag true => 100 | _ => 0) + (match s1.cfg.root.get? [0] with | some n => n.ty | none => 99)
+
+theorem get_table :
+    allFrom (fun i => modelGetOk (i / 10) (i / 2 % 5) (i % 2 == 1) == Generated.getOkTable.getD i false) 0 90 = true := by
+  decide +kernel
+
+theorem set_table :
+    allFrom (fun i => modelSetResult (i / 10) (i / 2 % 5) (i % 2 == 1) == Generated.setResultTable.getD i 999) 0 90 = true := by
+  decide +kernel
+
 /-! ### presentation attributes over all `unsigned short` arguments
 
 The probe evaluates the setter/getter pair for all 65536 arguments and compresses the answers
